@@ -102,6 +102,49 @@ func checkC11(c *checkCtx) int {
 			c.infraf("worker produced no summary: %s", describeFailure(w))
 		}
 	}
+	// volume phase on the untouched build: a process that has refused tens of
+	// thousands of hostile inputs under a budget must still accept harmless ones
+	// under the same budget
+	// (how many refusals make a process "old" is unknown: the workers use different volumes)
+	rejVolumes := []int{60000, 65000, 30000, 120000}
+	nOK := 80000
+	if c.Tier == "thorough" {
+		nOK = 1500000
+	}
+	volRejected, volAccepted := 0, 0
+	if c.S.Pure != "" {
+		var vj [][]string
+		for w := 0; w < nproc; w++ {
+			vj = append(vj, []string{"c11-volume", "-seed", strconv.FormatUint(c.Seed, 10), "-from", strconv.Itoa(w), "-k", strconv.Itoa(rejVolumes[w%len(rejVolumes)]), "-to", strconv.Itoa(nOK)})
+		}
+		for _, w := range runPool(c.S.Pure, vj, []string{"GOMAXPROCS=1"}, nproc, timeout) {
+			if w.ExitCode != 0 {
+				c.infraf("%s", describeFailure(w))
+				continue
+			}
+			for _, d := range w.Docs {
+				switch docType(d) {
+				case "violation":
+					var v Violation
+					json.Unmarshal(mustMarshal(d), &v)
+					c.report(v)
+				case "volume-summary":
+					var s struct {
+						Refused int `json:"hostile_refused"`
+						OK      int `json:"harmless_inputs"`
+						First   int `json:"first_refused"`
+					}
+					json.Unmarshal(mustMarshal(d), &s)
+					volRejected += s.Refused
+					if s.First < 0 {
+						volAccepted += s.OK
+					} else {
+						volAccepted += s.First
+					}
+				}
+			}
+		}
+	}
 	// budgets under concurrent creation (simsched engine, plain build): what other
 	// callers parse at the same time must not change the outcome of a budgeted parse
 	concPlans := 960
@@ -127,7 +170,10 @@ func checkC11(c *checkCtx) int {
 		"inputs_by_source":                                tot.BySource,
 		"fault_kinds_fired": map[string]int{
 			"parse_budget_abort": tot.Aborts,
+			"parse_budget_abort_in_volume_phase_untouched_build": volRejected,
 		},
+		"volume_phase": map[string]interface{}{"hostile_inputs_refused": volRejected, "harmless_inputs_accepted_afterwards_under_the_same_budget": volAccepted,
+			"note": "per worker process, on the untouched build: distinct hostile inputs (ten unmatched parentheses) refused under budget B = 3 x the measured threshold of the harmless template, then distinct harmless inputs that must all parse under B"},
 		"residue_checks_after_abort":          tot.Residue,
 		"max_unlimited_steps":                 tot.MaxS,
 		"max_statements_per_budget_unit_seen": tot.MaxRatio,
